@@ -45,8 +45,7 @@ def h_gen(c):
 
 def h_fit_reference(c):
     """independent recomputation (float oracle): degree-n least-squares Chebyshev fit of the documented
-    closed-form target on the chebpts1 nodes, through the normal equations of the Chebyshev
-    Vandermonde matrix (not numpy's chebfit)."""
+    closed-form target on the chebpts1 nodes, by the discrete cosine formula (not numpy's chebfit, no linear solve)."""
     import scipy.special
     name, a = c["name"], {k: (dec(v) if isinstance(v, str) else v) for k, v in c["args"].items()}
     degree = int(a["degree"])
@@ -82,9 +81,13 @@ def h_fit_reference(c):
         f = numpy.log(1 + numpy.exp(kp * (numpy.abs(x) - d))) / kp
     else:
         raise RuntimeError("no reference for " + name)
-    V = numpy.cos(numpy.outer(numpy.arccos(x), numpy.arange(degree + 1)))
-    coef = numpy.linalg.solve(V.T @ V, V.T @ f) if ns > degree + 1 else numpy.linalg.solve(V, f)
-    return {"coef": enc(coef), "cond": enc(float(numpy.linalg.cond(V)))}
+    # least-squares fit on the ns first-kind Chebyshev nodes in closed form (discrete orthogonality, proved in Theory/DctT.v:
+    # C16_least_squares_closed_form): c_k = (2 - [k=0]) / ns * sum_j f(x_j) T_k(x_j); no linear solve
+    if ns < degree + 1:
+        raise RuntimeError("fewer nodes than coefficients")
+    phi = numpy.arccos(x)
+    coef = numpy.array([(1.0 if k == 0 else 2.0) / ns * float(numpy.sum(f * numpy.cos(k * phi))) for k in range(degree + 1)])
+    return {"coef": enc(coef), "cond": enc(1.0)}
 
 
 def h_fpsearch(c):
